@@ -492,5 +492,214 @@ def representations(tier, seed):
 ITEMS['representations'] = representations
 
 
+
+# ------------------------------------------------------------------------------------------------
+# Trajectories of the shipped configurations (history-level claims of C01 C02 C04 C08 C09 C12 C15 C20).
+# The per-call contracts are proved; the induction over histories is stated, and this enumeration
+# exercises it on the real environments built by the real YAML factory (files read by miniyaml).
+def _shipped_configs():
+    import glob
+    top = sorted(glob.glob(os.path.join(native.REPO, 'yaml', '*.yaml')))
+    reg = sorted(glob.glob(os.path.join(native.REPO, 'gym_gridverse', 'registered_envs', '*.yaml')))
+    return top, reg
+
+
+def _ms(state):
+    from gym_gridverse.grid_object import Box, Floor, NoneGridObject
+    def key(o):
+        return type(o).__name__ + ':' + str(o.state_index) + ':' + str(o.color) + (
+            ':' + key(o.content) if isinstance(o, Box) else '')
+    objs = [state.grid[p] for p in state.grid.area.positions()] + [state.agent.grid_object]
+    return sorted(key(o) for o in objs if not isinstance(o, (Floor, NoneGridObject)))
+
+
+def _traj_case(args):
+    path, seed, steps = args
+    import numpy as np
+    import miniyaml
+    from gym_gridverse.action import Action
+    from gym_gridverse.envs.yaml.factory import factory_env_from_data
+    from gym_gridverse.grid_object import Box, Door, Exit, Floor, MovingObstacle
+    from gym_gridverse.gym import GymEnvironment, GymStateWrapper
+    from gym_gridverse.outer_env import OuterEnv
+    from gym_gridverse.representations.observation_representations import make_observation_representation
+    from gym_gridverse.representations.state_representations import make_state_representation
+    import gym_gridverse.rng as gvr
+    import random as pyrandom
+    out = {'evaluations': 0, 'nontrivial': 0, 'failures': []}
+    name = os.path.basename(path)
+
+    def fail(prop, what, **kw):
+        if sum(1 for f in out['failures'] if f['what'] == what) == 0:
+            out['failures'].append(dict(what=what, prop=prop, config=name, seed=seed, **kw))
+
+    data = miniyaml.loads(open(path).read())
+    import copy
+    data0 = copy.deepcopy(data)
+    envs = [factory_env_from_data(copy.deepcopy(data)) for _ in range(4)]
+    if data != data0:
+        fail('C02', 'building an environment modified its configuration data')
+    a, b, c, other = envs
+    r = pyrandom.Random(f'{seed}:{name}')
+    actions = a.action_space.actions
+    gvr.reset_gv_rng(4242)
+    snap = (repr(gvr.get_gv_rng().bit_generator.state), repr(np.random.get_state())[:3000], repr(pyrandom.getstate())[:500])
+    for e in (a, b, c):
+        e.set_seed(seed)
+    other.set_seed(seed + 1)
+    reps = {n: (make_state_representation(n, a.state_space) if a.state_space.can_be_represented else None,
+                make_observation_representation(n, a.observation_space)) for n in ('default', 'no-overlap', 'compact')}
+    # A: stateful; B: functional threading by hand; C: stateful, interleaved with another environment
+    a.reset()
+    sb = b.functional_reset()
+    c.reset()
+    other.reset()
+    prev = None
+    for t in range(steps):
+        reads = r.choice([0, 1, 1, 2, 3])
+        st = a.state
+        out['evaluations'] += 1
+        if not (st == sb):
+            fail('C04', 'stateful and functional trajectories diverge (state)', step=t)
+            break
+        if not (c.state == st):
+            fail('C02', 'same seed, interleaved with another environment: different state', step=t)
+            break
+        # closure and invariants along the trajectory
+        if not a.state_space.contains(st):
+            fail('C01', 'reachable state outside the declared state space', step=t)
+        cell = st.grid[st.agent.position]
+        if not st.grid.area.contains(st.agent.position) or cell.blocks_movement:
+            fail('C08', 'agent outside the grid or on a movement-blocking cell', step=t, cell=repr(cell))
+        if reads:
+            oa = [a.observation for _ in range(reads)]
+            ob = b.functional_observation(sb)
+            oc = c.observation
+            if any(x is not oa[0] for x in oa):
+                fail('C04', 'repeated reads return different observation objects', step=t)
+            if not (oa[0].grid == ob.grid and oa[0].agent == ob.agent):
+                fail('C04', 'stateful and functional trajectories diverge (observation)', step=t)
+            if not (oc.grid == oa[0].grid and oc.agent == oa[0].agent):
+                fail('C02', 'same seed, interleaved: different observation', step=t)
+            if not a.observation_space.contains(oa[0]):
+                fail('C01', 'observation outside the declared observation space', step=t)
+            for n, (srep, orep) in reps.items():
+                d = orep.convert(oa[0])
+                if any(not orep.space[k].contains(v) for k, v in d.items()):
+                    fail('C15', 'observation representation outside its space on a trajectory', step=t, representation=n)
+                if srep is not None:
+                    d = srep.convert(st)
+                    if any(not srep.space[k].contains(v) for k, v in d.items()):
+                        fail('C15', 'state representation outside its space on a trajectory', step=t, representation=n)
+        # an unrelated environment runs in between (must not matter)
+        other.step(r.choice(actions))
+        if r.random() < 0.1:
+            other.reset()
+        act = r.choice(actions)
+        before = _ms(st)
+        opened_box = act is Action.ACTUATE and st.grid.area.contains(st.agent.front()) and isinstance(st.grid[st.agent.front()], Box)
+        door_before = {(p.y, p.x): st.grid[p].state for p in st.grid.area.positions() if isinstance(st.grid[p], Door)}
+        held_before = st.agent.grid_object
+        ra, da = a.step(act)
+        sb, rb, db = b.functional_step(sb, act)
+        rc, dc = c.step(act)
+        if (ra, da) != (rb, db):
+            fail('C04', 'stateful and functional trajectories diverge (reward/done)', step=t)
+        if (ra, da) != (rc, dc):
+            fail('C02', 'same seed, interleaved: different reward/done', step=t)
+        if not (isinstance(ra, float) and np.isfinite(ra) and isinstance(da, (bool, np.bool_))):
+            fail('C01', 'reward is not a finite float or done is not a bool', step=t, reward=repr(ra), done=repr(da))
+        ns = a.state
+        after = _ms(ns)
+        if not opened_box:
+            # door status is part of the object: compare without it
+            strip = lambda ms: sorted(k.split(':')[0] + ':' + k.split(':', 2)[2] if k.startswith('Door:') else k for k in ms)
+            if strip(before) != strip(after):
+                fail('C09', 'multiset of non-floor objects changed along a trajectory', step=t, action=str(act))
+        for p in ns.grid.area.positions():
+            o = ns.grid[p]
+            if isinstance(o, Door) and (p.y, p.x) in door_before and door_before[(p.y, p.x)] is not o.state:
+                ok = act is Action.ACTUATE and st.agent.front() == p and o.state is Door.Status.OPEN
+                if door_before[(p.y, p.x)] is Door.Status.LOCKED:
+                    from gym_gridverse.grid_object import Key
+                    ok = ok and isinstance(held_before, Key) and held_before.color == o.color
+                if not ok:
+                    fail('C10', 'door status changed without a faced ACTUATE (with the matching key)', step=t)
+        on_exit = isinstance(ns.grid[ns.agent.position], Exit)
+        if 'reach_exit' in str(data0.get('terminating_function')) and data0['terminating_function'].get('name') == 'reach_exit':
+            if bool(da) != on_exit:
+                fail('C12', 'exit termination does not coincide with standing on an exit', step=t)
+        out['nontrivial'] += int(not (ns == st))
+        if da or r.random() < 0.05:
+            a.reset()
+            sb = b.functional_reset()
+            c.reset()
+    now = (repr(gvr.get_gv_rng().bit_generator.state), repr(np.random.get_state())[:3000], repr(pyrandom.getstate())[:500])
+    if now[0] != snap[0] or now[1] != snap[1]:
+        fail('C02', 'a seeded environment changed a global random source')
+    # gym layer (C20): registered ids wrap the default observation representation
+    try:
+        inner = factory_env_from_data(copy.deepcopy(data0))
+        inner.set_seed(seed)
+        outer = OuterEnv(inner, observation_representation=make_observation_representation('default', inner.observation_space),
+                         state_representation=(make_state_representation('default', inner.state_space)
+                                               if inner.state_space.can_be_represented else None))
+        genv = GymEnvironment(outer)
+        o = genv.reset()
+        for t in range(min(steps, 25)):
+            i = r.randrange(genv.action_space.n)
+            o, rew, done, info = genv.step(i)
+            out['evaluations'] += 1
+            deterministic = data0['observation_function'].get('name') != 'stochastic_raytracing'
+            want = outer.observation_representation.convert(
+                inner.functional_observation(inner.state) if deterministic else inner.observation)
+            if any(not np.array_equal(o[k], want[k]) for k in want):
+                fail('C20', 'gym step did not return the observation of the post-step state', step=t)
+            if not genv.observation_space.contains(o):
+                fail('C20', 'gym observation outside the advertised space', step=t)
+            if done:
+                o = genv.reset()
+        if outer.state_representation is not None:
+            w = GymStateWrapper(genv)
+            s0 = w.reset()
+            s1, rew, done, info = w.step(0)
+            want = outer.state_representation.convert(inner.state)
+            if any(not np.array_equal(s1[k], want[k]) for k in want) or 'observation' not in info:
+                fail('C20', 'state wrapper did not return the post-step state / observation in info')
+            if not w.observation_space.contains(s1):
+                fail('C20', 'wrapper state outside the advertised space')
+    except Exception as e:
+        fail('C20', 'gym adapter raised on a shipped configuration', error=f'{type(e).__name__}: {e}'[:200])
+    return out
+
+
+def trajectories(tier, seed):
+    top, reg = _shipped_configs()
+    failures = []
+    for f in top:
+        twin = os.path.join(native.REPO, 'gym_gridverse', 'registered_envs', os.path.basename(f))
+        if os.path.exists(twin) and open(f).read() != open(twin).read():
+            failures.append({'what': 'packaged copy of a configuration differs', 'prop': 'C17', 'config': os.path.basename(f)})
+    nseeds, steps = (3, 100) if tier == 'quick' else (12, 300)
+    cases = [(f, seed * 100 + s, steps) for f in top for s in range(nseeds)]
+    with mp.Pool(16) as pool:
+        res = pool.map(_traj_case, cases, chunksize=1)
+    failures += [f for r in res for f in r['failures']]
+    return {
+        'what': 'trajectories of every shipped configuration (built by the real YAML factory): stateful = functional, '
+                'same seed interleaved = same trajectory, global generators untouched, closure, kinematic invariant, '
+                'conservation, door rule, exit termination, representations inside their spaces, gym adapter',
+        'bound': f'{len(top)} configurations x {nseeds} seeds x {steps} random steps with random read patterns and resets',
+        'evaluations': sum(r['evaluations'] for r in res),
+        'distinct_nontrivial': sum(r['nontrivial'] for r in res),
+        'failures': failures[:8],
+        'samples': [{'config': os.path.basename(cases[3][0]), 'seed': cases[3][1], 'steps': steps}],
+        'exhaustive': False,
+    }
+
+
+ITEMS['trajectories'] = trajectories
+
+
 if __name__ == '__main__':
     main()
